@@ -83,6 +83,12 @@ impl Driver {
         let mem = Memvid::create(&path).expect("create");
         Driver { path, _dir: dir, mem: Some(mem), tags: HashMap::new(), next_tag: 1000, last_tag: 0, open_error: None, last_doctor: None }
     }
+    /// driver on an explicit path (used by the crash child and the survivor checks)
+    pub fn at(path: &std::path::Path, create: bool) -> Self {
+        let dir = tempfile::tempdir().expect("tempdir");
+        let mem = if create { Memvid::create(path).expect("create") } else { Memvid::open(path).expect("open") };
+        Driver { path: path.to_path_buf(), _dir: dir, mem: Some(mem), tags: HashMap::new(), next_tag: 1000, last_tag: 0, open_error: None, last_doctor: None }
+    }
     pub fn mem(&mut self) -> &mut Memvid { self.mem.as_mut().unwrap() }
 
     fn dead_obs(&self, op_term: T) -> StepObs {
